@@ -200,7 +200,7 @@ pub fn gen_utf8(rng: &mut Rng, max: usize) -> String {
     if rng.chance(3, 4) {
         return gen_ascii(rng, max);
     }
-    let pool = ['a', 'Z', '0', ' ', '=', ':', 'é', 'ß', 'Ж', '中', '🖨', '\u{0}', '\n', '~'];
+    let pool = ['a', 'Z', '0', ' ', '=', ':', 'é', 'ß', 'Ж', '中', '🖨', '\u{0}', '\n', '~', '\u{feff}', '\u{200b}', '\u{a0}', '\t', '\u{fffd}'];
     // mostly a handful of characters; with a generous bound sometimes a long run of multi-byte characters (text
     // beyond the 1023-octet RFC limit, character boundaries at every offset mod 2, 3 and 4)
     let n = if max >= 256 && rng.chance(1, 3) { rng.usize(max / 8, max) } else { rng.usize(0, 12) };
@@ -848,6 +848,25 @@ pub fn gen_trace(rng: &mut Rng, head_len: usize, total_len: usize, toks: &[Tok],
         }
     }
     (style, evs)
+}
+
+/// Rare events added to a generated schedule (each drawn independently, so most schedules have none):
+/// - a burst of 1025..5000 consecutive Interrupted results (blocking source) or not-ready results with an inline wake
+///   (async source) at one point of the stream - retry loops with a hidden bound;
+/// - `slow`: one call that takes 260..1500 ms on the clock seam - code that measures how long a read took.
+pub fn add_rare_events(rng: &mut Rng, evs: &mut Vec<Ev>, o: &TraceOpts, slow: bool) {
+    if rng.chance(1, 150) && ((o.is_async && o.pend) || (!o.is_async && o.eintr)) {
+        let n = *rng.pick(&[1025usize, 1100, 2000, 5000]);
+        let at = rng.usize(0, evs.len());
+        let ev = if o.is_async { Ev::Pend { wake: Wake::Inline, spurious: 0 } } else { Ev::Eintr };
+        evs.splice(at..at, std::iter::repeat(ev).take(n));
+    }
+    if slow && rng.chance(1, 400) {
+        let ms = *rng.pick(&[260u16, 400, 1100, 1500]);
+        // not after the last chunk: a slow call must be followed by more calls to matter
+        let at = rng.usize(0, evs.len().saturating_sub(1));
+        evs.insert(at, Ev::Slow(ms));
+    }
 }
 
 /// classify a data offset for the reach matrices
